@@ -97,7 +97,7 @@ def validate(scs, log_path, wd, name="trace", prop=None, max_runs=None, chunk_li
                     f.write(json.dumps(e) + "\n")
                 n += len(r["kept"])
                 r["last"] = n
-        rc, out, st = vlib.tlc("TraceOmaha", cfg, workers=8, name="%s.%d" % (name, ci), timeout=2400, extra=["-continue"],
+        rc, out, st = vlib.tlc("TraceOmaha", cfg, workers=8, name="%s.%d" % (name, ci), timeout=900, extra=["-continue"],
                                env={"TRACE": os.path.abspath(out_path),
                                     "JAVA_TOOL_OPTIONS": "-Xss1g -Xmx8g -Dtlc2.tool.impl.Tool.cdot=true"})
         for k in ("states", "transitions", "wall_s"):
